@@ -225,6 +225,45 @@ func runRead(data []byte, segs []seg) readObs {
 	return o
 }
 
+// runReadShared reads the same stream into ONE Message variable, keeping a copy of the struct per
+// frame (what a caller that queues the messages it reads does): a Read that reuses the storage
+// of the previous payload corrupts the frames already handed out.
+func runReadShared(data []byte, segs []seg) []net.Message {
+	r := &schedReader{data: append([]byte(nil), data...), sched: expand(segs)}
+	var kept []net.Message
+	var m net.Message
+	for {
+		if err := m.Read(r); err != nil {
+			break
+		}
+		kept = append(kept, m)
+	}
+	return kept
+}
+
+// failWriter accepts n bytes in all, then fails every call with err (returning 0 bytes).
+type failWriter struct {
+	n   int
+	err error
+	got []byte
+}
+
+func (w *failWriter) Write(p []byte) (int, error) {
+	if w.n <= 0 {
+		return 0, w.err
+	}
+	m := len(p)
+	if m > w.n {
+		m = w.n
+	}
+	w.n -= m
+	w.got = append(w.got, p[:m]...)
+	if m < len(p) {
+		return m, w.err
+	}
+	return m, nil
+}
+
 func obsTerm(o readObs) string {
 	it := make([]string, len(o.msgs))
 	for i, m := range o.msgs {
@@ -330,6 +369,18 @@ func runC01(res *hx.Result, rng *hx.Rng, tier string, outdir string) {
 		}
 		sched, sname := genSched(rng, len(stream), true)
 		o := runRead(stream, sched)
+		// oracle: the frames a caller keeps stay what they were when later frames are read into the same variable
+		if kept := runReadShared(stream, sched); len(kept) != len(o.msgs) {
+			res.Fail("sequence-into-one-variable", fmt.Sprintf("stream %x schedule %v: %d frames read into one Message variable, %d into fresh ones", stream, sched, len(kept), len(o.msgs)))
+		} else {
+			for j := range kept {
+				if kept[j].Header != o.msgs[j].Header || !bytes.Equal(kept[j].Payload, o.msgs[j].Payload) {
+					res.Fail("sequence-into-one-variable", fmt.Sprintf("stream %x schedule %v: frame %d, kept while the following frames were read into the same Message variable, now reads %+v/%x; it was %+v/%x",
+						stream, sched, j, kept[j].Header, kept[j].Payload, o.msgs[j].Header, o.msgs[j].Payload))
+					break
+				}
+			}
+		}
 		// property oracles on the implementation's own behaviour (positive chunks only)
 		if allPositive(sched) {
 			if len(o.msgs) < len(sent) {
@@ -401,6 +452,40 @@ func runC01(res *hx.Result, rng *hx.Rng, tier string, outdir string) {
 		res.Dist("write:" + kind)
 		cf.Add("wcases", fmt.Sprintf("{| wc_hdr := %s; wc_payload := %s; wc_sched := %s; wc_ok := %s; wc_calls := %s |}",
 			hx.NList(hdrFields(h)), hx.Hex(p), hx.NListInt(ws), hx.Bool(err == nil), hx.List(calls)), "write "+kind)
+	}
+	// a Write that failed must leave nothing behind: the next message written (to any stream) is its own frame only
+	werrs := []error{io.EOF, io.ErrShortWrite, io.ErrClosedPipe, io.ErrUnexpectedEOF, fmt.Errorf("injected")}
+	for i := 0; i < nWrites; i++ {
+		h := genHeader(rng)
+		p := rng.Bytes(rng.Intn(120))
+		h.Size = uint32(len(p))
+		fw := &failWriter{n: rng.Pick(0, 0, 1, 27, 28, 29, rng.Intn(28+len(p)+1)), err: werrs[i%len(werrs)]}
+		m := net.Message{Header: h, Payload: p}
+		err := m.Write(fw)
+		frame := docFrame(h, p)
+		if fw.n > 0 || len(fw.got) == len(frame) {
+			if err != nil || !bytes.Equal(fw.got, frame) {
+				res.Fail("write-valid", fmt.Sprintf("Message.Write into a writer with room for the frame: err=%v, bytes %x, frame %x", err, fw.got, frame))
+			}
+		} else {
+			if err == nil {
+				res.Fail("write-error-lost", fmt.Sprintf("Message.Write returned nil although the writer accepted %d of %d bytes and then failed with %v", len(fw.got), len(frame), fw.err))
+			}
+			if !bytes.Equal(fw.got, frame[:len(fw.got)]) {
+				res.Fail("write-concat", fmt.Sprintf("bytes accepted before the failure %x are not a prefix of the frame %x", fw.got, frame))
+			}
+		}
+		h2 := genHeader(rng)
+		p2 := rng.Bytes(rng.Intn(60))
+		h2.Size = uint32(len(p2))
+		m2 := net.Message{Header: h2, Payload: p2}
+		var b2 bytes.Buffer
+		err2 := m2.Write(&b2)
+		if err2 != nil || !bytes.Equal(b2.Bytes(), docFrame(h2, p2)) {
+			res.Fail("write-after-failed-write", fmt.Sprintf("after a Write that failed with %v (writer took %d of %d bytes), the next message %+v/%x was written as %x (err %v); its frame is %x",
+				fw.err, len(fw.got), len(frame), h2, p2, b2.Bytes(), err2, docFrame(h2, p2)))
+		}
+		res.Dist(fmt.Sprintf("write-failure:%v", fw.err))
 	}
 	cf.Flush()
 	// limit-sized payloads: implementation-only oracle (too large for the in-Coq evaluation)
